@@ -6,6 +6,7 @@
   the statement.
 -/
 import Edn.Proofs.Equal
+import Edn.Proofs.ReaderInv
 
 namespace Edn.Properties.C08
 open Edn.Model Edn.Spec Edn.Proofs
@@ -24,6 +25,38 @@ theorem verdict_exact (cfg : Cfg) (xs : List Val) (h : Elems cfg xs) :
 /-- the verdict is the same for every permutation of the elements -/
 theorem verdict_permutation_invariant (cfg : Cfg) (xs ys : List Val) (h : Elems cfg xs) (hp : xs.Perm ys) :
     (hasDuplicates cfg xs).1 = (hasDuplicates cfg ys).1 := hasDuplicates_perm cfg xs ys h hp
+
+/-- Reader half, sets: when the closing `}` of a set literal is met with the elements read so
+    far, the literal is accepted (with pairwise non-equal elements) if and only if no two of
+    them are equal, and rejected as DUPLICATE_ELEMENT otherwise. -/
+theorem set_literal_verdict (ctx : Ctx) (f d : Nat) (dm : Bool) (start : Nat) (st stc : St) (acc : List Val) (r : Bytes)
+    (hel : Elems ctx.cfg acc.reverse)
+    (hcl : readValue ctx f (d + 1) dm st = .closer stc) (hr : stc.rest = 0x7D :: r) :
+    (pairwiseDistinct ctx.cfg acc.reverse →
+        ∃ h ys, readSeq ctx (f + 1) d dm 2 start st acc = .ok (.set h none ys) { stc with rest := r } ∧
+          ys.length = acc.length ∧ pairwiseDistinct ctx.cfg ys) ∧
+    (¬ pairwiseDistinct ctx.cfg acc.reverse →
+        ∃ e, readSeq ctx (f + 1) d dm 2 start st acc = .err e { stc with rest := r } ∧ e.code = .duplicateElement) :=
+  set_close_verdict ctx f d dm start st stc acc r hel hcl hr
+
+/-- Reader half, maps (keys after namespace qualification when that syntax is enabled) -/
+theorem map_literal_verdict (ctx : Ctx) (f d : Nat) (dm : Bool) (start : Nat) (ns : Option Bytes) (st stc : St)
+    (ks vs : List Val) (r : Bytes)
+    (hel : Elems ctx.cfg ks.reverse)
+    (hcl : readValue ctx f (d + 1) dm st = .closer stc) (hr : stc.rest = 0x7D :: r) :
+    (pairwiseDistinct ctx.cfg ks.reverse →
+        ∃ h keys, readMap ctx (f + 1) d dm start ns st ks vs = .ok (.map h none keys vs.reverse) { stc with rest := r } ∧
+          keys.length = ks.length ∧ pairwiseDistinct ctx.cfg keys) ∧
+    (¬ pairwiseDistinct ctx.cfg ks.reverse →
+        ∃ e, readMap ctx (f + 1) d dm start ns st ks vs = .err e { stc with rest := r } ∧ e.code = .duplicateKey) :=
+  map_close_verdict ctx f d dm start ns st stc ks vs r hel hcl hr
+
+/-- every tree the reader returns (no handler registry) is duplicate-free in all its sets and
+    maps, within the depth equality handles, with valid caches: the hypotheses of the
+    equality, hashing and lookup theorems (C07, C09) hold for it -/
+theorem reader_establishes_wellformedness (cfg : Cfg) (opts : Opts) (hreg : opts.registry = none) (input : Bytes) (v : Val)
+    (h : (read cfg opts input).out = .value v) :
+    depth v < maxDepthFuel ∧ WF cfg v ∧ cacheOK cfg v = true := read_inv cfg opts hreg input v h
 
 /-- non-vacuity: 18 elements (beyond the pairwise strategy) with an equal composite pair far
     apart, and the list/vector twin, are both reported -/
